@@ -50,6 +50,20 @@ pub async fn client_ka(addr: SocketAddr, ca: &[u8], id: &Identity, backoff: Back
     Ok(c)
 }
 
+/// like `client_ka`, with the builder's setters called in the other order (back-off first)
+pub async fn client_ka_backoff_first(addr: SocketAddr, ca: &[u8], id: &Identity, backoff: BackoffStrategy, keep_alive_ms: u64) -> Result<Client> {
+    let dir = certs::write_dir(ca, id);
+    let c = selium::custom()
+        .backoff_strategy(backoff)
+        .keep_alive(keep_alive_ms)?
+        .endpoint(&addr.to_string())
+        .with_certificate_authority(certs::p(&dir, "ca.der"))?
+        .with_cert_and_key(certs::p(&dir, "localhost.der"), certs::p(&dir, "localhost.key.der"))?
+        .connect()
+        .await?;
+    Ok(c)
+}
+
 /// the real client library with its identity given as a PEM bundle (leaf + `extra`)
 pub async fn client_bundle(addr: SocketAddr, ca: &[u8], id: &Identity, extra: &[u8]) -> Result<Client> {
     let dir = certs::write_dir_bundle(ca, id, extra);
@@ -99,6 +113,10 @@ fn raw_client_config(ca: &[u8], id: Option<&Identity>) -> Result<ClientConfig> {
 /// `stream_window`: the flow-control credit this peer grants on each stream it receives on
 /// (0: the server can never write a byte to it)
 fn raw_client_config_w(ca: &[u8], id: Option<&Identity>, stream_window: Option<u32>) -> Result<ClientConfig> {
+    raw_client_config_x(ca, id, stream_window, true)
+}
+
+fn raw_client_config_x(ca: &[u8], id: Option<&Identity>, stream_window: Option<u32>, sni: bool) -> Result<ClientConfig> {
     let mut roots = RootCertStore::empty();
     roots.add(&Certificate(ca.to_vec()))?;
     let b = rustls::ClientConfig::builder().with_safe_defaults().with_root_certificates(roots);
@@ -107,6 +125,7 @@ fn raw_client_config_w(ca: &[u8], id: Option<&Identity>, stream_window: Option<u
         None => b.with_no_client_auth(),
     };
     crypto.alpn_protocols = vec![b"hq-29".to_vec()];
+    crypto.enable_sni = sni;
     let mut cfg = ClientConfig::new(Arc::new(crypto));
     let mut t = TransportConfig::default();
     t.keep_alive_interval(Some(Duration::from_secs(2)));
@@ -135,6 +154,14 @@ impl RawConn {
     pub async fn connect_with_window(addr: SocketAddr, ca: &[u8], id: Option<&Identity>, stream_window: u32) -> Result<Self> {
         let mut endpoint = Endpoint::client("127.0.0.1:0".parse().unwrap())?;
         endpoint.set_default_client_config(raw_client_config_w(ca, id, Some(stream_window))?);
+        let conn = tokio::time::timeout(LONG, endpoint.connect(addr, "localhost")?).await.map_err(|_| anyhow!("connect timed out"))??;
+        Ok(RawConn { conn, _endpoint: endpoint })
+    }
+
+    /// a peer that does not send the server-name extension in its TLS hello
+    pub async fn connect_without_sni(addr: SocketAddr, ca: &[u8], id: Option<&Identity>) -> Result<Self> {
+        let mut endpoint = Endpoint::client("127.0.0.1:0".parse().unwrap())?;
+        endpoint.set_default_client_config(raw_client_config_x(ca, id, None, false)?);
         let conn = tokio::time::timeout(LONG, endpoint.connect(addr, "localhost")?).await.map_err(|_| anyhow!("connect timed out"))??;
         Ok(RawConn { conn, _endpoint: endpoint })
     }
